@@ -564,6 +564,55 @@ fn judge_a(case: &Case, l_: &mut Local) {
             }
         }
     }
+    // the caliper chord of a cambered section (the longest leg of its convex hull bridging the hollow side) does not
+    // depend on how the section lies in the plane: 72 orientations, both vertex orders, four start vertices
+    if !reflex && !sharp && bend != 0.0 && case.le == "intersect" && case.te == "intersect" && case.orient == "dir" && !case.detect_face && case.section < 7 {
+        let mut lens: Vec<(usize, bool, f64)> = Vec::new();
+        let mut dirs: Vec<(usize, bool, f64)> = Vec::new();
+        // one analysis in the section's own frame; the camber line is then moved along with the section
+        let base_sec = Curve2::from_points(&base_pts, 1e-7 * l, true);
+        let base_g = base_sec.as_ref().ok().and_then(|sc| analyze(sc, l, case, &FaceOrient::UpperDir(Vector2::new(0.0, 1.0)), Vector2::new(-1.0, 0.0)).ok());
+        if let Some(g0) = base_g {
+            for k in 0..72usize {
+                let pose = Iso2::new(Vector2::new(0.0, 0.0), k as f64 * 5.0 * PI / 180.0 + 0.013);
+                let camber = g0.camber.transformed_by(&pose);
+                for rev in [false, true] {
+                    for start in 0..4usize {
+                        let mut pts: Vec<Point2> = base_pts.iter().map(|p| pose * p).collect();
+                        let shift = start * pts.len() / 4;
+                        pts.rotate_left(shift);
+                        if rev {
+                            pts.reverse();
+                        }
+                        let sec = match Curve2::from_points(&pts, 1e-7 * l, true) {
+                            Ok(c) => c,
+                            Err(_) => continue,
+                        };
+                        l_.eval();
+                        if let Ok(Ok(cc)) = guarded(|| caliper_chord_line(&sec, &camber)) {
+                            lens.push((k * 4 + start, rev, (cc.chord.le - cc.chord.te).norm()));
+                            // the tangent line seen from the section's own frame
+                            let t = pose.inverse() * (cc.tangent.te - cc.tangent.le);
+                            if t.norm() > 0.0 {
+                                let a = t.y.atan2(t.x).rem_euclid(PI);
+                                dirs.push((k * 4 + start, rev, a));
+                            }
+                        }
+                    }
+                }
+            }
+        }
+        if lens.len() >= 2 {
+            l_.bucket("caliper chord over 72 orientations");
+            let (lo, hi) = lens.iter().fold((f64::MAX, f64::MIN), |a, x| (a.0.min(x.2), a.1.max(x.2)));
+            l_.check("the caliper chord does not depend on the orientation of the section in the plane", "", hi - lo <= 8.0 * (tau + h), mk, || format!("chord lengths between {} and {} over {} orientations (shortest at {:?})", lo, hi, lens.len(), lens.iter().find(|x| x.2 == lo).map(|x| (x.0 / 4 * 5, x.0 % 4, x.1))));
+        }
+        if let Some(first) = dirs.first().cloned() {
+            // angles are taken modulo pi; the distance between two of them is folded accordingly
+            let far = dirs.iter().map(|x| { let d = (x.2 - first.2).abs(); (d.min(PI - d), x.0, x.1) }).fold((0.0, 0usize, false), |a, x| if x.0 > a.0 { x } else { a });
+            l_.check("the caliper tangent line is the same line of the section in every orientation", "", far.0 <= 1e-6, mk, || format!("tangent direction differs by {} rad between orientation ({} deg, start {}, reversed {}) and ({} deg, start {}, reversed {})", far.0, first.0 / 4 * 5, first.0 % 4, first.1, far.1 / 4 * 5, far.1 % 4, far.2));
+        }
+    }
     // a configuration may be rejected, but then for every variant alike
     let all_same = outcomes.iter().all(|x| *x == outcomes[0]);
     l_.check("acceptance or rejection of a configuration is the same for every pose and vertex order", "", all_same, mk, || format!("{:?}", outcomes));
